@@ -46,7 +46,9 @@ func (dm *defaultMkdirerPipeline) worker(ctx context.Context, wg *sync.WaitGroup
 			if !ok {
 				return
 			}
+			verifPoint("mkdir.recv")
 			if dm.isExistRoot([]*Node{root}) {
+				verifPoint("mkdir.err")
 				errc <- ErrExistPath
 				return
 			}
